@@ -48,21 +48,29 @@ import export_examples as EX
 from common import DRIVER, LEAN, NCPU, REPO, WORK, Outcome, proof_coverage, proof_stage, run_driver, seed, use_repo
 
 THEOREMS = [
-    # ---- calculator: all well-formed token lists, unbounded
+    # ---- calculator: all well-formed token lists, unbounded (nothing OPEN)
     "Pest.C17.prattTable_levels",
     "Pest.C17.prattLevels_documented",
     "Pest.C17.climbTable_levels",
     "Pest.C17.climbLevels_documented",
-    "Pest.C17.climb_eq_pratt_of_table",
+    "Pest.C17.docLevels_documented",
+    "Pest.C17.cwf_wf",
     "Pest.C17.levels_parse_eq_encoded",
     "Pest.C17.prattTree_eq_encodedTree",
+    "Pest.C17.climb_eq_pratt_of_table",
     "Pest.C17.climbTree_eq_prattTree",
     "Pest.C17.refTree_spec",
     "Pest.C17.calc_trees_agree",
-    "Pest.C17.calc_total",
+    "Pest.C17.implAt_eq_encoded",
     "Pest.C17.calc_three_agree",
+    "Pest.C17.implAt_total",
+    "Pest.C17.calc_total",
     "Pest.C17.calc_values_agree",
-    # ---- JSON: lexical level (see Props/C17.lean for what is OPEN)
+    "Pest.Calc.climbExpr_eq",
+    "Pest.Calc.encodedTree_spec",
+    "Pest.Calc.build_congr",
+    "Pest.Calc.build_total",
+    # ---- JSON (see Props/C17.lean for what is OPEN)
     "Pest.C17.render_length",
 ]
 
@@ -1476,16 +1484,20 @@ def run(out: Outcome) -> None:  # noqa: PLR0912, PLR0915
     except Exception as e:  # noqa: BLE001
         out.infra_error = f"export from the repository failed: {type(e).__name__}: {e}"[:400]
         return
+    t_export = time.time() - t0
     info = proof_stage(out, "C17", THEOREMS, extra_targets=["PestModel.Drv.Examples"])
     lean_ok = bool(info.get("driver_ok")) and (info["build_ok"] or _examples_driver_builds())
+    t_proof = time.time() - t0 - t_export
 
-    n_json = 6000 if thorough else 700
+    n_json = 6000 if thorough else 480
     n_neg = 60000 if thorough else 6000
     n_calc = 400000 if thorough else 30000
     exh_len = 8 if thorough else 6
     max_units = 40 if thorough else 14
     n_corr_json = 1500 if thorough else 250
     spec_budget = 120000 if thorough else 12000
+    if _driver_mode() == "scratch":          # interpreted entry point: an order of magnitude slower
+        spec_budget //= 3
     n_corr_calc_random = 20000 if thorough else 3000
 
     with EX.scratch_examples() as td:
@@ -1552,6 +1564,7 @@ def run(out: Outcome) -> None:  # noqa: PLR0912, PLR0915
             out.infra_error = "the harness's own references disagree: " + incons[0][:600]
             return
 
+        t_search = time.time() - t0 - t_export - t_proof
         # ---- correspondence with the Lean models
         corr_mism: list[tuple[str, str, str, dict]] = []
         n_corr = 0
@@ -1643,7 +1656,8 @@ def run(out: Outcome) -> None:  # noqa: PLR0912, PLR0915
         "direct_failures": len(calc_problems) + len(json_problems) + len(neg_problems),
         "lean_driver": _driver_mode() if lean_ok else "unavailable",
         "json_theorems_open": ["json_accepts", "json_rejects_prefix", "json_number_accepts", "json_string_accepts"],
-        "wall_search_s": round(time.time() - t0, 1),
+        "phases_s": {"export": round(t_export, 1), "build_and_audit": round(t_proof, 1), "search": round(t_search, 1),
+                     "correspondence_and_verdict": round(time.time() - t0 - t_export - t_proof - t_search, 1)},
     }
     out.assumptions = [
         "the calculator theorems are about token lists; that the pest grammars turn a text into these tokens (rule names, "
